@@ -42,7 +42,14 @@ func genC12Case(t *rapid.T) C12Case {
 	c04Tame = rapid.IntRange(0, 3).Draw(t, "tame") != 0
 	defer func() { c04Tame = false }()
 	u0, u1 := genSpecialUser(t, 0), genSpecialUser(t, 1)
-	spec := world.Spec{IdP: idp, SPs: []world.SPSpec{stdSP(0), stdSP(1)}, Users: []world.UserSpec{u0, u1}}
+	if rapid.Bool().Draw(t, "urnattr") {
+		u0.Custom = append(u0.Custom, world.CustomAttr{Name: "urn:oid:2.5.4.20", FriendlyName: "telephoneNumber", NameFormat: "urn:oasis:names:tc:SAML:2.0:attrname-format:uri", Values: []string{"+41 00 000 00 00"}})
+	}
+	spB := stdSP(1)
+	if rapid.Bool().Draw(t, "spwithoutkey") {
+		spB.KeyNames = nil
+	}
+	spec := world.Spec{IdP: idp, SPs: []world.SPSpec{stdSP(0), spB}, Users: []world.UserSpec{u0, u1}}
 	c := C12Case{Spec: spec, Host: rapid.SampledFrom(reqHosts).Draw(t, "host"), Style: genXMLStyle(t), Soap: rapid.SampledFrom([]string{"soap", "S"}).Draw(t, "soap")}
 	e0, e1 := spec.SPs[0].EntityID, spec.SPs[1].EntityID
 	issuer := rapid.SampledFrom([]string{e0, e0, e0, e0, e1, e1, e0, e1, "https://unregistered.example/metadata", A, swapCase(e0), e0 + "/"}).Draw(t, "issuer")
@@ -57,7 +64,25 @@ func genC12Case(t *rapid.T) C12Case {
 	own := expectedAttrs(target)
 	n := rapid.IntRange(0, 4).Draw(t, "nrequested")
 	for i := 0; i < n; i++ {
-		switch k := rapid.IntRange(0, 4).Draw(t, "reqkind"); {
+		switch k := rapid.IntRange(0, 5).Draw(t, "reqkind"); {
+		case k == 5 && len(own) > 0:
+			// a different (Name, NameFormat) pair that reads the same when the two are glued together
+			a := own[rapid.IntRange(0, len(own)-1).Draw(t, "ownidx")]
+			sep := rapid.SampledFrom([]string{":", ":", "", "|", " ", "/", ",", "\x00"}).Draw(t, "gluesep")
+			nm, nf := a.Name, a.NameFormat
+			switch {
+			case sep != "" && strings.Contains(nf, sep):
+				i := strings.Index(nf, sep)
+				nm, nf = a.Name+sep+nf[:i], nf[i+len(sep):]
+			case sep != "" && strings.Contains(a.Name, sep):
+				i := strings.LastIndex(a.Name, sep)
+				nm, nf = a.Name[:i], a.Name[i+len(sep):]+sep+a.NameFormat
+			case len(nf) > 1:
+				nm, nf = a.Name+nf[:1], nf[1:]
+			case len(a.Name) > 1:
+				nm, nf = a.Name[:len(a.Name)-1], a.Name[len(a.Name)-1:]+nf
+			}
+			q.Attrs = append(q.Attrs, spsim.QAttr{Name: nm, NameFormat: nf, FriendlyName: A})
 		case k <= 1 && len(own) > 0:
 			a := own[rapid.IntRange(0, len(own)-1).Draw(t, "ownidx")]
 			q.Attrs = append(q.Attrs, spsim.QAttr{Name: a.Name, NameFormat: a.NameFormat, FriendlyName: A})
@@ -90,7 +115,7 @@ func genC12Case(t *rapid.T) C12Case {
 	}
 	q.DestPrefixed = c.DestKind != "absent" && rapid.IntRange(0, 3).Draw(t, "destprefixed") == 0
 	c.Query = q
-	c.SignMode = rapid.SampledFrom([]string{"none", "none", "none", "none", "none", "none", "none", "valid", "rogue", "rogue-registered-cert", "edited", "empty-value"}).Draw(t, "signmode")
+	c.SignMode = rapid.SampledFrom([]string{"none", "none", "none", "none", "none", "none", "none", "valid", "rogue", "rogue-registered-cert", "edited", "empty-value", "rogue-no-keyinfo", "edited-no-keyinfo"}).Draw(t, "signmode")
 	return c
 }
 
@@ -110,6 +135,10 @@ func c12Render(c C12Case, now time.Time) obs.HTTPReq {
 		sg.KeyName = "rogue"
 	case "rogue-registered-cert":
 		sg.KeyName, sg.CertOf = "rogue", key
+	case "rogue-no-keyinfo":
+		sg.KeyName, sg.KeyInfo = "rogue", false
+	case "edited-no-keyinfo":
+		sg.KeyInfo = false
 	}
 	if tree.AttrV("ID") == "" && sg.Alg != "" {
 		tree.SetAttr("ID", "_q")
@@ -118,7 +147,7 @@ func c12Render(c C12Case, now time.Time) obs.HTTPReq {
 		panic("harness: " + err.Error())
 	}
 	switch c.SignMode {
-	case "edited":
+	case "edited", "edited-no-keyinfo":
 		if s := tree.Child(world.NSSAML, "Subject"); s != nil {
 			if n := s.Child(world.NSSAML, "NameID"); n != nil {
 				n.Children = nil
